@@ -82,8 +82,8 @@ def applicable(c, sh):
             return ['Valid', 'NotOrtho', 'Reflect']
         if d == (4, 4):
             return ['Valid', 'NotOrtho', 'Reflect', 'BadRow']
-        if len(d) == 2 and d[1] == 4:
-            return ['Valid', 'NotOrtho']
+        if len(d) == 2 and d[1] == 4:                                      # UnitQuaternion(N x 4 array of rows), N <> 4
+            return ['AltForm']
         return ['WrongShape']
     m = 6 if c == 'cTw3' else 3
     k = 4 if c == 'cTw3' else 3
@@ -162,7 +162,7 @@ def make_item(rng, c, sh, tag):
         return 3.0
     shape = np_shape(sh)
     if tag in ('WrongShape', 'AltForm'):
-        return rng.normal(size=shape)
+        return rng.normal(size=shape) * (log_uniform(rng, 1e-3, 1e3) if tag == 'AltForm' else 1.0)
     if c in ('cSO2', 'cSO3'):
         return bad_rot(rng, sh[1], tag)
     if c in ('cSE2', 'cSE3'):
@@ -177,10 +177,7 @@ def make_item(rng, c, sh, tag):
             if tag == 'NotOrtho':
                 q = q * (1 + log_uniform(rng, 1e-5, 1.0) * rng.choice([-0.9, 1.0])) if rng.random() < 0.9 else np.zeros(4)
             return q
-        rows = [rand_unit(rng, 4) for _ in range(shape[0])]
-        if tag == 'NotOrtho':
-            rows[rng.integers(len(rows))] *= 1 + log_uniform(rng, 1e-3, 1.0)
-        return np.array(rows)
+        raise ValueError((c, sh, tag))
     if c in ('cTw2', 'cTw3'):
         if sh[0] == 'Vec':
             return rng.normal(size=shape) * log_uniform(rng, 1e-2, 1e2)
@@ -451,7 +448,7 @@ MODELLED = [
     (_V, 'isunittwist2', None, 'isunittwist2_tol',
      [['if', ['Eq', 'expr', 'const:3'],
        [['return', ['or', ['call', 'isunitvec', [['tol', 'tol']]], ['and', _LT, ['call', 'isunitvec', [['tol', 'tol']]]]]]], [['raise']]]]),
-    (_Q, 'isunit', None, 'isunit_tol', [['return', ['call', 'base.iszerovec', [['tol', 'tol']]]]]),   # sic: iszerovec
+    (_Q, 'isunit', None, 'isunit_tol', [['return', ['call', 'base.isunitvec', [['tol', 'tol']]]]]),
     ('spatialmath/twist.py', 'isvalid', 'Twist3', None, _TW_ISVALID),
     ('spatialmath/twist.py', 'isvalid', 'Twist2', None, _TW_ISVALID),
     ('spatialmath/quaternion.py', 'isvalid', 'UnitQuaternion', None,
@@ -755,7 +752,7 @@ def build_models():
         g.model(f'm_isunitvec{n}', [S, ('v', sh)], coq=P + f'isunitvec{n}', num_fn=lambda tol, v: base.isunitvec(v, tol=tol), sampler=s_unitvec(n), **kw)
         g.model(f'm_iszerovec{n}', [S, ('v', sh)], coq=P + f'iszerovec{n}', num_fn=lambda tol, v: base.iszerovec(v, tol=tol), sampler=s_zerovec(n, 'iszerovec_tol'), **kw)
     g.model('m_iszero', [S, ('x', 'S')], coq=P + 'iszero', num_fn=lambda tol, x: base.iszero(x, tol=tol), sampler=s_zero, **kw)
-    g.model('m_isunit_q', [S, ('q', 'V4')], coq=P + 'isunit_q', num_fn=lambda tol, q: base.isunit(q, tol=tol), sampler=s_zerovec(4, 'isunit_tol'), **kw)
+    g.model('m_isunit_q', [S, ('q', 'V4')], coq=P + 'isunit_q', num_fn=lambda tol, q: base.isunit(q, tol=tol), sampler=s_unitvec(4, 'isunit_tol'), **kw)
     g.model('m_isunittwist', [S, ('s', 'V6')], coq=P + 'isunittwist', num_fn=lambda tol, s: base.isunittwist(s, tol=tol), sampler=s_unittwist, **kw)
     g.model('m_isunittwist2', [S, ('s', 'V3')], coq=P + 'isunittwist2', num_fn=lambda tol, s: base.isunittwist2(s, tol=tol), sampler=s_unittwist2, **kw)
     T2 = [('tz', 'S'), ('ts', 'S')]
@@ -898,10 +895,11 @@ def oracle_pred(ctx):
         rej('iszero', 'abs', base.iszero(m), [m])
         # ---- quaternions.isunit against its definition (outside the band)
         uq1 = rand_unit(rng, 4)
-        expect('oracle:isunit:is-iszerovec', "base.isunit(q) of a unit quaternion", base.isunit(uq1), True, uq1, names='unit quaternion')
-        expect('oracle:isunit:is-iszerovec', "base.isunit(q) of the zero quaternion", base.isunit(np.zeros(4)), False, np.zeros(4), names='zero quaternion')
+        accepted('isunit', 'unit quaternion', base.isunit(uq1), uq1)
+        accepted('isunit', 'r2q', base.isunit(base.r2q(rots['rpy2r'])), rots['rpy2r'])
+        rej('isunit', 'zero quaternion', base.isunit(np.zeros(4)), np.zeros(4))
         qn = uq1 * (1 + abs(m) + 1e-6)
-        expect('oracle:reject:isunit:norm', "base.isunit(q) of a non-unit quaternion", base.isunit(qn), False, qn, names='non-unit quaternion')
+        rej('isunit', 'norm', base.isunit(qn), qn)
     ctx.sample({'kind': 'oracle-pred', 'reflection': Rf.tolist(), 'isR': bool(base.isR(Rf))})
 
 
@@ -911,9 +909,10 @@ def oracle_pred(ctx):
 COQ_HDR = "From Coq Require Import List.\nImport ListNotations.\nFrom SM Require Import Model.C07_Ctor.\n"
 
 
-def reason_key(c, form, reason):
-    if reason in ('holds-Reflect', 'accepts-Reflect'):
-        return 'ctor:reflection-accepted'                       # root cause: base.isR
+def reason_key(c, form, reason, items):
+    if c == 'cUQ' and form == 'bare' and items[0][0] == ('Sq', 4) and reason.startswith('accepts-'):
+        # a 4x4 array that fails ishom (reflected / non-orthonormal rotation block, bad last row) is read as 4 quaternion rows
+        return 'ctor:UnitQuaternion:bare:4x4-failing-ishom-read-as-rows'
     where = GROUP[c] + ':seq' if form != 'bare' else CLS[c].__name__ + ':bare'
     return f'ctor:{where}:{reason}'
 
@@ -948,9 +947,8 @@ def table(ctx):
             # the property itself, decided without the model
             ctx.count('oracle:ctor')
             prim = [x for x in reasons if x.startswith('holds-')] or reasons
-            prim = set(prim) | {x for x in reasons if x == 'accepts-Reflect'}
-            for reason in sorted(prim):
-                ctx.fail(reason_key(c, form, reason),
+            for reason in sorted(set(prim)):
+                ctx.fail(reason_key(c, form, reason, items),
                          f"{CLS[c].__name__}({form}) returned an object although the argument holds an invalid value: {reason}; data={val_}", rep)
     ctx.corr['functions'] += len(CLS)
     ctx.sample({'kind': 'T-tab', 'cell': [cs[40][0], cs[40][1], str(cs[40][2])], 'model': vals[40]})
